@@ -14,7 +14,7 @@ theorem limit_respected {E sz al p L c} (f : Bool) (s : St) (hE : EnvOK E) (h : 
     sumUsable s.a.chunks + usable c ≤ L := by
   have sp := allocMaybe_spec f s hE h hA hlay
   obtain ⟨_, _, _, _, _, refs, _, hcase⟩ := sp.ok p hok
-  rcases hcase with ⟨_, hlen⟩ | ⟨c', hc', _, _, hlim⟩
+  rcases hcase with ⟨_, hlen⟩ | ⟨c', hc', _, _, hlim, _⟩
   · rw [hnew] at hlen; simp at hlen
   · rw [hnew] at hc'
     simp only [List.cons.injEq, and_true] at hc'
@@ -30,7 +30,7 @@ theorem no_chunk_when_exhausted {E sz al p L} (f : Bool) (s : St) (hE : EnvOK E)
     (allocMaybe E f sz al s).1.a.chunks.length = s.a.chunks.length := by
   have sp := allocMaybe_spec f s hE h hA hlay
   obtain ⟨_, _, _, _, _, refs, _, hcase⟩ := sp.ok p hok
-  rcases hcase with ⟨_, hlen⟩ | ⟨c', _, _, hpos, hlim⟩
+  rcases hcase with ⟨_, hlen⟩ | ⟨c', _, _, hpos, hlim, _⟩
   · exact hlen
   · have h1 := hlim L hL
     rw [show s.a.allocatedBytes E = sumUsable s.a.chunks from h.ab] at h1
